@@ -73,7 +73,7 @@ def c04(ctx, replay):
     if ctx.quick():
         args += ["-bufs", "1,512", "-modes-on", "ct", "-chunks", "whole"]
     else:
-        args += ["-bufs", "1,2,7,512,4096,32768", "-modes-on", "ct,nct", "-chunks", "whole,rand", "-stride", "3"]
+        args += ["-bufs", "1,7,512,32768", "-modes-on", "ct,nct", "-chunks", "whole,rand", "-stride", "5"]
     # the adapters over Conn.Reader too: NetConn.Read (byte stream) and wsjson.Read (JSON bodies, incl. a value that is complete
     # before the message is: white space or empty fragments still to come)
     args += ["-apis", "reader,read,netconn,wsjson"]
@@ -461,6 +461,8 @@ def c09(ctx, replay):
     ctx.absorb(rep)
     # concurrent executions (writers, pingers, reader, closers; peers that flood, withhold, duplicate and guess pongs, zero-window
     # transports): every actor must return once the connection is closed and Close/CloseNow must return in time
+    # refinement: executions with a CloseNow racing Close, Read, Ping and a streaming Writer replayed through WSConn (Extra "N")
+    core.refine_validate(ctx, 150 if ctx.quick() else 1500, only=SIG_REFINE, kind="n")
     conc_campaign(ctx, 200 if ctx.quick() else 1500, SIG_C09)
     ctx.extra["rule"] = ("adversaries {echo, late echo, silent, never reads, stall after k header bytes (k in 1,2,3,5,9,10,13), stall after j payload bytes "
                          "(j in 0,1,50,99), endless small frames, one endless frame, half-close} x local states {idle, reader blocked, message half read, "
@@ -506,6 +508,10 @@ def c10(ctx, replay):
     ctx.absorb(rep)
     rej, _ = trace_validate(ctx, "TraceConn", "TraceConn.cfg", conn, name="TraceConn(ctxprog)")
     absorb_rejections(ctx, rej, "TraceConn", conn, only=SIG_C10)
+    # refinement: executions in which the application cancels the Writer's and the Ping's context at seeded moments (inside a
+    # frame write on a narrow transport, in a lock wait, while waiting for the pong, long after the call) replayed through the
+    # actions of WSConn with CtxProcs = {A, P}; Harmless and ArmedOnlyInFrame are evaluated in every state on the way
+    core.refine_validate(ctx, 200 if ctx.quick() else 1500, only=SIG_REFINE, kind="ctx")
     conc_campaign(ctx, 150 if ctx.quick() else 2000, SIG_C10)
     if not ctx.quick():
         repo_tests_traced(ctx, SIG_C10)
